@@ -24,7 +24,7 @@ class C02(BTreeSpec):
                           "TlxVerif/Proofs/C01EraseE.lean", "TlxVerif/Proofs/C01EraseF.lean", "TlxVerif/Proofs/C01EraseG.lean",
                           "TlxVerif/Proofs/C01SepSeq.lean", "TlxVerif/Proofs/C01EraseH.lean", "TlxVerif/Proofs/C01Iter.lean",
                           "TlxVerif/Proofs/C01InsPos.lean", "TlxVerif/Proofs/C01StdOrder.lean", "TlxVerif/Proofs/C01Bulk.lean",
-                          "TlxVerif/Proofs/C01Verify.lean", "TlxVerif/Model/C01Verify.lean")
+                          "TlxVerif/Proofs/C01Verify.lean", "TlxVerif/Model/C01Verify.lean", "TlxVerif/Proofs/C01RIter.lean")
     assumptions = [
         "node identity is not modelled: the model counts allocations and frees per node type; that the *right* node "
         "is freed is observed by the counting allocator (unknown/double free), ASan and the leaf-chain walk only",
